@@ -206,7 +206,24 @@ def parseStrBody : Nat → List Char → List Char → Option (String × List Ch
       else if c.toNat < 32 then none
       else parseStrBody fuel r (c :: acc)
 
-def parseStr (r : List Char) : Option (String × List Char) := parseStrBody r.length r []
+/-- Number of characters before the closing quote of a string body (the whole remainder if there
+    is none), found with `parseStrBody`'s own control flow reduced to two states: the character
+    after a backslash is never the closing quote (`esc`); everything else an escape consumes
+    (`uXXXX`, a second `\uXXXX`) is made of hex digits, which are neither `"` nor `\`.
+    Tail recursive, `acc` counts. Costs one pass over the STRING, not over the rest of the
+    document (`parseStr` used to take `r.length` as fuel: O(document) per string). -/
+def strEnd : Bool → List Char → Nat → Nat
+  | _, [], acc => acc
+  | true, _ :: r, acc => strEnd false r (acc + 1)
+  | false, c :: r, acc =>
+    if c = '"' then acc
+    else if c = '\\' then strEnd true r (acc + 1)
+    else strEnd false r (acc + 1)
+
+/-- `parseStrBody` reads at least one character per unit of fuel and stops at the closing quote:
+    `strEnd false r 0 + 1` units always suffice — `parseStr_fuel` (Lemmas/JsonParse) proves that
+    this is the same function as with the old fuel `r.length`. -/
+def parseStr (r : List Char) : Option (String × List Char) := parseStrBody (strEnd false r 0 + 1) r []
 
 def toFin10 (c : Char) : Fin 10 := ⟨(c.toNat - 48) % 10, Nat.mod_lt _ (by decide)⟩
 
